@@ -348,10 +348,19 @@ def run(chk):
     for e, m in zip(events, meta):
         chk.judged((m[0], str(m[1]), m[2]))
     imported(chk)
+    # MC_C05_names (shared with C05): a name that a naming option of the run re-spells where it is DECLARED (Go uppercase_acronyms,
+    # prefix, serde rename), referenced from 9 positions of a type expression - every reference uses the declared name
+    from .c05 import user_names
+    user_names(chk)
 
 
 def replay(chk, rec):
     c = rec["case"]
+    if "src" in c and "case" in c and isinstance(c.get("case"), dict) and "naming" in c["case"]:
+        from .c05 import user_names
+        user_names(chk)
+        chk.mismatches = {k: v for k, v in chk.mismatches.items() if k == rec["signature"]}
+        return
     if c.get("site") == "imported":
         imported(chk)
         chk.mismatches = {k: v for k, v in chk.mismatches.items() if k == rec["signature"]}
